@@ -8,8 +8,8 @@ theorem connect_ok (script : List Step) (hello : Bytes) (h : (connect script hel
     (connect script hello).1.shut = false ∧ (connect script hello).1.sent = [ehloLine hello] ∧
     (connect script hello).1.panic = false := by
   simp only [connect] at h ⊢
-  generalize hc0 : (Conn.deliver ⟨script, true, [], [], false, none, false⟩) = c0 at h ⊢
-  have hd := deliver_fields ⟨script, true, [], [], false, none, false⟩
+  generalize hc0 : (Conn.deliver (Conn.fresh script [] none)) = c0 at h ⊢
+  have hd := deliver_fields (Conn.fresh script [] none)
   rw [hc0] at hd
   have hr := read_fields c0
   cases hrd : c0.read with
@@ -20,9 +20,9 @@ theorem connect_ok (script : List Step) (hello : Bytes) (h : (connect script hel
     | error e => simp at h
     | ok g =>
       simp only at h ⊢
-      have h1s : c1.shut = false := by rw [hc1, hr.2.1, hd.2.1]
-      have h1p : c1.panic = false := by rw [hc1, hr.2.2.1, hd.2.2.1]
-      have h1sent : c1.sent = [] := by rw [hc1, hr.1, hd.1]
+      have h1s : c1.shut = false := by rw [hc1, hr.2.1, hd.2.1]; rfl
+      have h1p : c1.panic = false := by rw [hc1, hr.2.2.1, hd.2.2.1]; rfl
+      have h1sent : c1.sent = [] := by rw [hc1, hr.1, hd.1]; rfl
       have hcmd := command_open c1 (ehloLine hello) h1s
       simp only [Conn.ehlo] at h ⊢
       rcases try_command c1 (ehloLine hello) h1s with ⟨r, ht, _⟩ | ⟨e, ht, _⟩
@@ -63,7 +63,7 @@ theorem starttls_shape (cfg : Cfg) (c : Conn) (ts : List Step) (hs : c.shut = fa
     ((starttls true cfg c ts).2 = .ok () →
       cfg.hs = true ∧ c.supports (·.startTls) = true ∧
       ∃ t i, (starttls true cfg c ts).1.tls = some t ∧
-        t = ((⟨ts, true, [], [], false, i, false⟩ : Conn).ehlo cfg.hello).1) ∧
+        t = ((Conn.fresh ts [] i).ehlo cfg.hello).1) ∧
     ((starttls true cfg c ts).1.tls.isSome = true → cfg.hs = true) := by
   unfold starttls
   by_cases hsup : c.supports (·.startTls) = true
@@ -77,7 +77,7 @@ theorem starttls_shape (cfg : Cfg) (c : Conn) (ts : List Step) (hs : c.shut = fa
         by_cases hh : cfg.hs = true
         · simp only [hh, Bool.not_true, Bool.false_eq_true, if_false]
           have hbuf : (c.command starttlsLine).1.buf = [] := by simpa using hb
-          cases he : (Conn.ehlo ⟨ts, true, [], (c.command starttlsLine).1.buf, false, (c.command starttlsLine).1.info, false⟩ cfg.hello) with
+          cases he : (Conn.ehlo (Conn.fresh ts (c.command starttlsLine).1.buf (c.command starttlsLine).1.info) cfg.hello) with
           | mk t res =>
             have hclear : ClearOk cfg.hello (c.command starttlsLine).1.sent := by
               rw [hc.1, hsent]; exact (clearOk_lists _).1
@@ -128,7 +128,7 @@ theorem establish_required (cfg : Cfg) (cs ts : List Step) (hm : cfg.mode = .req
     (∀ c', (establish true cfg cs ts).1.clear = some c' → ClearOk cfg.hello c'.sent) ∧
     ((establish true cfg cs ts).2 = .ok () →
       cfg.hs = true ∧ ∃ t i, (establish true cfg cs ts).1.tls = some t ∧
-        t = ((⟨ts, true, [], [], false, i, false⟩ : Conn).ehlo cfg.hello).1) ∧
+        t = ((Conn.fresh ts [] i).ehlo cfg.hello).1) ∧
     ((establish true cfg cs ts).1.tls.isSome = true → cfg.hs = true) := by
   unfold establish
   simp only [hm]
